@@ -46,6 +46,7 @@ def run(chk, binary):
     ans = server_map(binary, reqs)
     cases = []
     cmeta = []
+    steps_of = {}
     dist = {"with_selection": 0, "backward": 0, "multibyte": 0, "edit": 0, "failed_cmd": 0, "panic": 0}
     for (text, prefix, cmd, is_nonedit), a in zip(meta, ans):
         steps = a.get("steps", [])
@@ -72,6 +73,7 @@ def run(chk, binary):
         cached = st["cached"] if st["cached"] is not None else st["fresh"]
         cases.append((txt(st["buf"]), [Nat(x) for x in cached], Nat(st["cmax"]), Nat(c0), Nat(c1), None if sel is None else C("Some", sel)))
         cmeta.append((text, prefix, cmd, is_nonedit, before, st, field, c0, c1, sel))
+        steps_of[id(st)] = steps[-1].get("cmds", [])
     model = run_coq_eval("c01", IMPORTS, "field_obs", cases, shard=500)
     for (text, prefix, cmd, is_nonedit, before, st, field, c0, c1, sel), m in zip(cmeta, model):
         case = {"text": text, "prefix": prefix, "cmd": cmd, "cursor_before": c0, "cursor_after": c1, "buffer_after": st["buf"],
@@ -103,6 +105,14 @@ def run(chk, binary):
                     exp = "\n".join("".join(cl[int(a):int(b)]) for a, b in rg.args[0] if int(a) <= int(b) <= len(cl) and int(a) < len(cl))
                 if ifield != exp:
                     chk.violation("spec:field is not the selected text", dict(case, expected=exp))
+                # a characterwise selection made by v and plain motions only: it runs from where v was pressed to the cursor
+                tr = steps_of[id(st)]
+                if (mode == 0 and rg.name == "OneDim" and tr and tr[0].get("verb") == "VisualMode" and len(tr) >= 2
+                        and all(c.get("verb") is None and c.get("motion") and not c["motion"].startswith(("TextObj", "Null")) and c.get("done") for c in tr[1:])):
+                    dist["v_plus_motions"] = dist.get("v_plus_motions", 0) + 1
+                    if (int(rg.args[0]), int(rg.args[1])) != (min(c0, c1), max(c0, c1)):
+                        chk.violation("spec:a selection made by v and motions does not run from where v was pressed to the cursor",
+                                      dict(case, expected_range=[min(c0, c1), max(c0, c1)]))
                 # the cursor lies inside the selection it cut
             # the field is a contiguous, cluster-aligned stretch of the buffer
             if ifield and ifield not in st["buf"] and sel is None:
